@@ -18,11 +18,15 @@ thread_local! {
     static WORLD: RefCell<Option<World>> = const { RefCell::new(None) };
 }
 
+/// Initial per-denomination balance of the rich account in worlds created from now on
+/// (process-wide; set once at the start of a check, before any world exists).
+pub static RICH_AMOUNT: std::sync::atomic::AtomicU64 = std::sync::atomic::AtomicU64::new(20);
+
 pub fn with_world<T>(ext: bool, f: impl FnOnce(&mut World) -> T) -> T {
     WORLD.with(|w| {
         let mut g = w.borrow_mut();
         if g.is_none() {
-            *g = Some(World::new());
+            *g = Some(World::new_with(RICH_AMOUNT.load(std::sync::atomic::Ordering::Relaxed) as u128));
         }
         let world = g.as_mut().unwrap();
         if world.info.watch.ext != ext || WATCH.with(|x| x.borrow().ring.is_empty()) {
